@@ -271,3 +271,64 @@ Example c11_listed_but_unchanged :
   /\ (snd (run_call root0 ws0 (CPatch patch_add_del)) = Some [s "n.txt"]
       /\ same_listing (fst (run_call root0 ws0 (CPatch patch_add_del))) ws0 = true).
 Proof. exact (conj write_same_listed_unchanged (conj failed_patch_listed_unchanged add_delete_listed_unchanged)). Qed.
+
+(* ---------- "... are ever IN PROGRESS at the same time": how long an execution that runs a shell command is in progress ----------
+   Model/WsLockTree.v: the execution (a background task in pipes or pty mode, a bash / shell tool call) acquires the
+   permit, spawns its command, waits for the shell, JOINS its two output streams and releases.  The command is any
+   set of processes (the shell, children, double-forked grandchildren), each with a program of workspace writes and
+   of closes of the streams it inherited; other executions acquire / write / release; every interleaving.
+   [waiter_wf w]: the waiter releases only after both streams were joined by a plain await (a join that passes
+   only at end-of-stream, i.e. when no live process holds the stream any more).  The three waiters are read from
+   the source on every run (tools/gen/lockjoin.py -> Gen/LockJoin.v, on top of the C17 extractor pump_join.py).
+   [ETreeWrite p k att h]: process p of the command writes; att = it still holds one of the execution's streams;
+   h = who holds the permit at that moment. *)
+From RipV Require Import Model.WsLockTree Proofs.WsLockTreeProofs Gen.LockJoin.
+
+(* every write of a process that is still attached to the execution happens while the execution holds the permit;
+   every write of another execution happens while that one holds it: they never overlap *)
+Theorem c11_attached_writes_under_lock : forall (w : list top) (ps : list proc) (n : nat) (sched : list sch),
+  waiter_wf w = true ->
+  (forall p k h, In (ETreeWrite p k true h) (ttrace (trun w ps n sched)) -> h = Some 0%nat)
+  /\ (forall j h, In (EOtherWrite j h) (ttrace (trun w ps n sched)) -> h = Some (S j)).
+Proof. exact tree_writes_under_lock. Qed.
+Print Assumptions c11_attached_writes_under_lock.
+
+(* the same as an order of events: once the execution has released the permit nothing that is still attached to
+   it writes any more (l1 = the events after the release; traces are newest first) *)
+Theorem c11_no_attached_write_after_release : forall (w : list top) (ps : list proc) (n : nat) (sched : list sch) (l1 l2 : list ev),
+  waiter_wf w = true ->
+  ttrace (trun w ps n sched) = l1 ++ ETask TRel :: l2 ->
+  forall p k h, ~ In (ETreeWrite p k true h) l1.
+Proof. exact tree_no_attached_write_after_release. Qed.
+Print Assumptions c11_no_attached_write_after_release.
+
+(* the waiters of the pipes task, the pty task and the shell tool as they are in the source satisfy it *)
+Theorem c11_generated_waiters_wf :
+  gen_ok_lockjoin = true
+  /\ waiter_wf gen_pipes_task_waiter && waiter_wf gen_pty_task_waiter && waiter_wf gen_shell_tool_waiter = true.
+Proof. exact (conj gen_lockjoin_found gen_lockjoin_wf). Qed.
+Print Assumptions c11_generated_waiters_wf.
+
+(* a drain that is bounded in time (seeded change C11-10: the pumps are given 1 s each, then aborted) is rejected by
+   the obligation, and with it an attached child writes while ANOTHER execution holds the permit *)
+Theorem c11_bounded_drain_refuted :
+  exists ps n sched p k j, In (ETreeWrite p k true (Some (S j))) (ttrace (trun bounded_waiter ps n sched)).
+Proof. exact bounded_drain_refuted. Qed.
+Print Assumptions c11_bounded_drain_refuted.
+
+Example c11_bounded_waiter_rejected : waiter_wf bounded_waiter = false.
+Proof. exact bounded_waiter_not_wf. Qed.
+
+(* non-vacuity: the waiter as built is well-formed, and on the very schedule of the refutation it keeps the permit
+   until the child (`( sleep 4; echo x > f ) & echo started`) has written *)
+Example c11_waiter_as_built_holds :
+  waiter_wf ref_waiter = true
+  /\ tholder (trun ref_waiter bg_procs 1 sched_handover) = Some 0%nat
+  /\ In (ETreeWrite 1 2 true (Some 0%nat)) (ttrace (trun ref_waiter bg_procs 1 sched_handover)).
+Proof. exact (conj ref_waiter_wf ref_waiter_holds). Qed.
+
+(* what is NOT claimed: a child that closed every stream it inherited before it writes is invisible to the
+   execution; its write can land in the next execution's span (the property text does not speak of it) *)
+Example c11_detached_child_outlives_span :
+  In (ETreeWrite 1 2 false (Some 1%nat)) (ttrace (trun ref_waiter detached_procs 1 sched_detached)).
+Proof. exact detached_child_outlives_span. Qed.
